@@ -48,7 +48,7 @@ def run(tier):
     seedmap = [[7, 8]] * len(strings)
     cfgs = ["default", "A", "B", "partial"]
     depth = 3 if tier == "quick" else 4
-    hs, r = H.enumerate_histories(2 if tier == "thorough" else 1, 2 if tier == "quick" else 3, [1], cfgs, depth, ["parse", "type"])
+    hs, r = H.enumerate_histories(2, 3 if tier == "quick" else 4, [1], cfgs, depth, ["parse", "type"])
     keys = sorted({(b["str"], b["op"], b["arg"]) for h in hs for b in h["base"] if b["op"] == "type"})
     base = H.baselines(strings, seedmap, keys)
     # (1) every baseline observation: total + element-consistent; copies of the files = defaults; partial refused
